@@ -23,3 +23,25 @@ CONTRACTS = [
         local_kinds={"arg": "opaque"},
     ),
 ]
+
+# column_call_to_param (cdd/sqlalchemy/utils/parse_utils.py): the Column(...) keywords that are folded into the
+# description / type -- primary_key, foreign_key, nullable -- never survive as keys of the returned entry
+# ("each entry has only the keys type, description, default (and the extension key)").
+MQ = "cdd.sqlalchemy.utils.parse_utils"
+ENTRY = {"typ": "str", "doc?": "str", "default?": "opaque", "primary_key?": "opaque", "foreign_key?": "opaque", "nullable?": "opaque", "x_typ?": "opaque"}
+
+CONTRACTS.append(
+    Contract(
+        MQ + ":column_call_to_param#fold-keywords",
+        src=MQ + ":column_call_to_param",
+        block=("for shortname, longname in", "return ", "before"),
+        params={"_param": ENTRY, "call": "opaque"},
+        ensures=[
+            "not present(_param, 'primary_key')",
+            "not present(_param, 'foreign_key')",
+            "not present(_param, 'nullable')",
+            # the type is still there
+            "present(_param, 'typ')",
+        ],
+    )
+)
